@@ -704,7 +704,66 @@ var hdrClauses = map[string]func(hdrInput) string{
 	},
 }
 
-var hdrClauseOrder = []string{"roundtrip", "serialise", "version", "offsets", "locality"}
+// the documented SNES header map (the same table as coq/Spec/HeaderSpec.v; the check proves the two
+// tables equal on every run, Lemma documented_tie): flattened path -> (cartridge address, size)
+var hdrDocumented = []struct {
+	path string
+	addr int64
+	size int
+}{
+	{"MakerCode", 0xFFB0, 2}, {"GameCode", 0xFFB2, 4}, {"Fixed1[0]", 0xFFB6, 1}, {"Fixed1[5]", 0xFFBB, 1},
+	{"FlashSize", 0xFFBC, 1}, {"ExpansionRAMSize", 0xFFBD, 1}, {"SpecialVersion", 0xFFBE, 1}, {"CoCPUType", 0xFFBF, 1},
+	{"Title[0]", 0xFFC0, 1}, {"Title[20]", 0xFFD4, 1}, {"MapMode", 0xFFD5, 1}, {"CartridgeType", 0xFFD6, 1},
+	{"ROMSize", 0xFFD7, 1}, {"RAMSize", 0xFFD8, 1}, {"DestinationCode", 0xFFD9, 1}, {"OldMakerCode", 0xFFDA, 1},
+	{"MaskROMVersion", 0xFFDB, 1}, {"ComplementCheckSum", 0xFFDC, 2}, {"CheckSum", 0xFFDE, 2},
+	{"NativeVectors.COP", 0xFFE4, 2}, {"NativeVectors.BRK", 0xFFE6, 2}, {"NativeVectors.ABORT", 0xFFE8, 2},
+	{"NativeVectors.NMI", 0xFFEA, 2}, {"NativeVectors.IRQ", 0xFFEE, 2},
+	{"EmulatedVectors.COP", 0xFFF4, 2}, {"EmulatedVectors.ABORT", 0xFFF8, 2}, {"EmulatedVectors.NMI", 0xFFFA, 2},
+	{"EmulatedVectors.RESET", 0xFFFC, 2}, {"EmulatedVectors.IRQBRK", 0xFFFE, 2},
+}
+
+func init() {
+	// every field named in the documented map is the little-endian value of the bytes at its documented address
+	hdrClauses["documented"] = func(in hdrInput) string {
+		h, err := hdrParse(in.h)
+		if err != nil {
+			return fmt.Sprintf("ReadHeader on 80 bytes: %v", err)
+		}
+		byPath := map[string]hdrLeaf{}
+		for _, l := range hdrFlatten(&h) {
+			byPath[l.path] = l
+		}
+		for _, d := range hdrDocumented {
+			l, ok := byPath[d.path]
+			if !ok {
+				continue // renamed / restructured field: still pinned by its rom tag (clause offsets)
+			}
+			if l.size != d.size {
+				return fmt.Sprintf("field %s is %d bytes, documented as %d bytes at $%04X", d.path, l.size, d.size, d.addr)
+			}
+			if h.HeaderVersion() == 1 && d.addr < 0xFFC0 {
+				continue
+			}
+			o := int(d.addr - 0xFFB0)
+			want := uint64(0)
+			for k := d.size - 1; k >= 0; k-- {
+				want = want<<8 | uint64(in.h[o+k])
+			}
+			if l.v.Uint() != want {
+				return fmt.Sprintf("field %s = $%X, but the bytes at its documented address $%04X decode little-endian to $%X", d.path, l.v.Uint(), d.addr, want)
+			}
+		}
+		return ""
+	}
+	commands["hdrdocumented"] = func(args []string) int {
+		for _, d := range hdrDocumented {
+			fmt.Printf("%s %d %d\n", d.path, d.addr, d.size)
+		}
+		return 0
+	}
+}
+
+var hdrClauseOrder = []string{"roundtrip", "serialise", "version", "offsets", "documented", "locality"}
 
 func hdrCheck(args []string) int {
 	seed, _ := strconv.ParseUint(args[0], 10, 64)
@@ -743,6 +802,7 @@ func hdrCheck(args []string) int {
 		try("serialise", in)
 		try("version", in)
 		try("offsets", in)
+		try("documented", in)
 		// locality: every position on a share of the headers, random positions on the rest
 		if k%8 == 0 {
 			for i := 0; i < 80; i++ {
